@@ -57,7 +57,9 @@ def runUm (bs : List Nat) : String :=
 def step (_ : Unit) (toks : List String) : Unit × String :=
   match toks with
   | ["umsites"] =>
-    let bad := JanetModel.Unmarsh.Bytes.cfg.sites.bad
+    let C := JanetModel.Unmarsh.Bytes.cfg
+    let bad := C.sites.bad ++ (if C.refChecked then [] else ["lookup[len]"]) ++ (if C.envRefChecked then [] else ["lookup_envs[index]"]) ++
+      (if C.defRefChecked then [] else ["lookup_defs[index]"])
     ((), if bad.isEmpty then "ok" else "bad " ++ " ".intercalate bad)
   | ["vmguards"] =>
     let bad := JanetModel.Bytecode.GuardObligations.badRows
